@@ -12,7 +12,8 @@
             id, rt ("O", "U", or "-" when gfapy has no such group)
             a, b, c = captured_path / captured_segments / captured_edges   (O)
                       induced_set / induced_segments_set / induced_edges_set (U)
-                      each [r |-> result class, w |-> sequence of [id, o]]
+                      each [r |-> result class, w |-> sequence of [id, o, p]],
+                      p = index into Pool of the written form of a set member
      val  result class of gfa.validate()
      exp  the strict expectation classes printed by MC_Groups for this case
           (identifier, kind), or <<>> for cases that do not come from TLC
@@ -31,7 +32,8 @@
                  captured_edges are not its segments / edges)
      C17.path-error-missed    no reading has a walk but gfapy returned one
      C17.path-error-spurious  every reading has a walk but gfapy raised
-     C17.set     induced set (segments, edges, both) differs
+     C17.set     induced set (segments as a set, edges as a BAG of name + what
+                 they join, so that unnamed edges count one by one) differs
      C17.set-error  gfapy raised on a set that is fully defined, or answered
                  for a set with an illegal item
      C17.validate  validate() raised although every group resolves
@@ -48,7 +50,15 @@ VARIABLES n, done
 vars == <<n, done>>
 
 IsErr(r) == r \notin {"ok", "FOREIGN"}
-Names(w) == {w[i].id : i \in DOMAIN w}
+\* an answer element is [id, o, p]: p = index into Pool of the written form of the line
+\* (set answers; 0 in walks)
+Refs(w) == [i \in DOMAIN w |-> [id |-> w[i].id, o |-> w[i].o]]
+RtOf(x) == IF x.p >= 1 THEN Pool[x.p].rt ELSE "?"
+LoggedSegs(w) == {w[i].id : i \in {j \in DOMAIN w : RtOf(w[j]) = "S"}}
+\* the logged edges as a bag of keys (unnamed edges are told apart by what they join)
+LoggedEdgeBag(w) ==
+  BagOf(SeqMap(LAMBDA x : EdgeKeyOf(Pool[x.p]), SelectSeq(w, LAMBDA x : RtOf(x) = "E")))
+OnlySegsAndEdges(w) == \A i \in DOMAIN w : RtOf(w[i]) \in {"S", "E"}
 
 -----------------------------------------------------------------------------
 (* one add_line event against the document D before it *)
@@ -94,28 +104,30 @@ PathFails(D, q) ==
       mayfail == \E r \in outs : ~r.ok
       A == IF q.a.r = "FOREIGN" THEN {"foreign"}
            ELSE IF q.a.r = "ok" THEN
-             (IF q.a.w \in walks THEN {}
+             (IF Refs(q.a.w) \in walks THEN {}
               ELSE IF walks # {} THEN {"C17.path"} ELSE {"C17.path-error-missed"})
            ELSE (IF mayfail THEN {} ELSE {"C17.path-error-spurious"})
       \* captured_segments / captured_edges: the segments / edges of the same walk
       Part(x, sel(_, _)) ==
            IF x.r = "FOREIGN" THEN {"foreign"}
-           ELSE IF q.a.r = "ok" THEN (IF x.r = "ok" /\ x.w = sel(D, q.a.w) THEN {} ELSE {"C17.path"})
+           ELSE IF q.a.r = "ok" THEN (IF x.r = "ok" /\ Refs(x.w) = sel(D, Refs(q.a.w)) THEN {} ELSE {"C17.path"})
            ELSE IF x.r = "ok" THEN
-             (IF \E w \in walks : x.w = sel(D, w) THEN {"C17.path"} ELSE {"C17.path-error-missed"})
+             (IF \E w \in walks : Refs(x.w) = sel(D, w) THEN {"C17.path"} ELSE {"C17.path-error-missed"})
            ELSE {} IN
   A \cup Part(q.b, SegsOfWalk) \cup Part(q.c, EdgesOfWalk)
 
 SetFails(D, q) ==
   LET X == SegsMentioned(D, q.id)
-      E == EdgesWithin(D, X)
-      One(x, S) ==
+      E == EdgeBagWithin(D, X)          \* every E line inside, unnamed ones too: a bag
+      none == BagOf(<<>>)
+      One(x, S, B) ==
         IF x.r = "FOREIGN" THEN {"foreign"}
         ELSE IF x.r = "ok" THEN
           (IF ~SetMayAnswer(D, q.id) THEN {"C17.set-error"}
-           ELSE IF Names(x.w) = S THEN {} ELSE {"C17.set"})
+           ELSE IF OnlySegsAndEdges(x.w) /\ LoggedSegs(x.w) = S /\ LoggedEdgeBag(x.w) = B
+             THEN {} ELSE {"C17.set"})
         ELSE (IF SetMayFail(D, q.id) THEN {} ELSE {"C17.set-error"}) IN
-  One(q.a, X \cup E) \cup One(q.b, X) \cup One(q.c, E)
+  One(q.a, X, E) \cup One(q.b, X, none) \cup One(q.c, {}, E)
 
 QueryFails(D, q) ==
   LET ln == LineNamed(D, q.id) IN
